@@ -69,7 +69,7 @@ def build():
     C.exc("EventHandlerException", "Exception", file=EV)
     C.helpers["list_sort"] = list_sort
 
-    C.cls("Cond", fields={})
+    C.cls("Cond", fields=dict(text=Str))       # two handlers may carry conditions with the same text
 
     def cond_eval(I, env, args, kwargs):
         r = VBool(z3.Bool(I.fresh_name("cond")))
